@@ -49,7 +49,7 @@ from vf.core.runner import Ctx
 PROPERTY = "C28"
 LEVEL = "model_checking"
 ENGINE = "E2-BFS"
-SHARDS = {"quick": 4, "thorough": 8}
+SHARDS = {"quick": 8, "thorough": 16}
 RULE = (
     "(a) BFS to fixpoint over all tables reachable by allocate(1..N+1)/free(live entry) on the real ShmAllocator, "
     "data region N=1..7 (quick) / 1..10 (thorough) bytes, MAX_ALLOCS rebound to 2..3 (quick) / 1..4 (thorough); "
@@ -407,18 +407,26 @@ def run_batch_case(ctx: Ctx, case: dict[str, Any]) -> None:
         L = dict(tab or ())[dry[0]]
         seg.free(dry[0])
         buf[H:total] = bytes([PATTERN]) * (total - H)
-        A.allocate(64)
-        if case["place"] == "hole":
-            hole = A.allocate(L)
-            v = seg.allocate_and_write(victim)
-            assert hole is not None and v is not None
-            seg.free(hole)
-        else:
-            v = seg.allocate_and_write(victim)
-            assert v is not None
-            _, tab, _ = read_header(buf, total)
-            end = max(o + n for o, n in tab)  # type: ignore[union-attr]
-            assert A.allocate(total - end - L) is not None
+        try:
+            A.allocate(64)
+            if case["place"] == "hole":
+                hole = A.allocate(L)
+                v = seg.allocate_and_write(victim)
+                assert hole is not None and v is not None
+                seg.free(hole)
+            else:
+                v = seg.allocate_and_write(victim)
+                assert v is not None
+                _, tab, _ = read_header(buf, total)
+                end = max(o + n for o, n in tab)  # type: ignore[union-attr]
+                assert A.allocate(total - end - L) is not None
+        except (AssertionError, ValueError, TypeError) as e:
+            # the allocator itself misbehaves (part (a) reports that); this case cannot be laid out
+            ctx.note(f"batch case {case} could not be laid out: {e!r}")
+            ctx.extra["b_layout_failed"] = ctx.extra.get("b_layout_failed", 0) + 1
+            ctx.case(outcome="layout-failed")
+            del buf, A
+            return
         v_bytes = bytes(buf[v[0] : v[0] + v[1]])
         _, pre, _ = read_header(buf, total)
         assert pre is not None
